@@ -1320,7 +1320,13 @@ void f_bind (void) {
     error ("Permission of binding denied by master object.\n");
 
   new_fp = ALLOCATE (funptr_t, TAG_FUNP, "f_bind");
-  *new_fp = *old_fp;
+  /* efun and simul_efun pointers are allocated smaller than funptr_t
+   * (see make_efun_funp), so copy only what the old one really has */
+  memset (new_fp, 0, sizeof (funptr_t));
+  if ((old_fp->hdr.type & FP_MASK) == FP_FUNCTIONAL)
+    memcpy (new_fp, old_fp, sizeof (funptr_hdr_t) + sizeof (functional_t));
+  else
+    memcpy (new_fp, old_fp, sizeof (funptr_hdr_t) + sizeof (local_ptr_t));
   new_fp->hdr.owner = ob;	/* one ref from being on stack */
   if (new_fp->hdr.args)
     new_fp->hdr.args->ref++;
